@@ -83,6 +83,8 @@ const (
 	OInt2BV
 	OBV2Nat
 	OApp
+	OIBitLen // BV64 bit length of |x| for Int x
+	OITz     // BV64 number of trailing zero bits of |x| (0 for x == 0)
 )
 
 var opNames = map[Op]string{
@@ -149,6 +151,8 @@ func computeSig(t *Term) int {
 			return t.Args[1].Sig
 		}
 		return t.Args[1].S.W + t.Args[0].Sig
+	case OIBitLen, OITz:
+		return 12
 	case OExtract:
 		s := t.Args[0].Sig - t.B
 		if s < 0 {
@@ -421,6 +425,11 @@ func Eq(a, b *Term) *Term {
 	}
 	if a.IsConst() {
 		a, b = b, a
+	}
+	if a.Op == OIBitLen || a.Op == OITz {
+		if r, ok := lenEq(a, b); ok {
+			return r
+		}
 	}
 	if b.IsConst() && a.S.K == KBV && b.C.BitLen() > a.Sig {
 		return TFalse
@@ -744,6 +753,11 @@ func BvCmp(op Op, a, b *Term) *Term {
 	if a == b {
 		return BoolConst(op == OBvULe || op == OBvSLe)
 	}
+	if a.Op == OIBitLen || b.Op == OIBitLen {
+		if r, ok := lenCmp(op, a, b); ok {
+			return r
+		}
+	}
 	switch op {
 	case OBvULt:
 		if isZero(b) {
@@ -1041,6 +1055,16 @@ func Int2BV(a *Term, w int) *Term {
 	if a.IsConst() {
 		return BVConst(a.C, w)
 	}
+	if b, ok := signedOf.Load(a.ID); ok {
+		bt := b.(*Term)
+		if bt.S.W == w {
+			return bt
+		}
+		if bt.S.W < w {
+			return SExt(bt, w)
+		}
+		return Extract(bt, w-1, 0)
+	}
 	if a.Op == OBV2Nat && a.Args[0].S.W == w {
 		return a.Args[0]
 	}
@@ -1070,8 +1094,13 @@ func BV2IntSigned(a *Term) *Term {
 	n := BV2Nat(a)
 	half := new(big.Int).Lsh(bigOne, uint(w-1))
 	full := new(big.Int).Lsh(bigOne, uint(w))
-	return Ite(ILt(n, IntConst(half)), n, IntBin(OISub, n, IntConst(full)))
+	r := Ite(ILt(n, IntConst(half)), n, IntBin(OISub, n, IntConst(full)))
+	signedOf.Store(r.ID, a)
+	return r
 }
+
+// signedOf remembers, for the integer term built by BV2IntSigned, the bit-vector it came from.
+var signedOf sync.Map
 
 // UF application
 type UFDecl struct {
@@ -1140,6 +1169,8 @@ func (t *Term) body() string {
 		fmt.Fprintf(&sb, "((_ sign_extend %d) %s)", t.A, t.Args[0].ref())
 	case OInt2BV:
 		fmt.Fprintf(&sb, "((_ int2bv %d) %s)", t.A, t.Args[0].ref())
+	case OIBitLen, OITz:
+		return expandLen(t).ref()
 	case OApp:
 		if len(t.Args) == 0 {
 			return "|" + t.Name + "|"
@@ -1288,6 +1319,116 @@ func rebuild(t *Term, args []*Term) *Term {
 		return BV2Nat(args[0])
 	case OApp:
 		return App(t.Name, t.S, args...)
+	case OIBitLen:
+		return IBitLen(args[0])
+	case OITz:
+		return ITz(args[0])
+	case OIAbs:
+		return IAbs(args[0])
 	}
 	panic("rebuild: op")
+}
+
+const bigLenBits = 520
+
+// IBitLen is the bit length of |x| (as BV64). Comparisons with constants are rewritten into
+// integer range conditions; elsewhere it prints as an ite chain valid for |x| < 2^520.
+func IBitLen(x *Term) *Term {
+	if x.IsConst() {
+		return BVu(uint64(new(big.Int).Abs(x.C).BitLen()), 64)
+	}
+	return intern(&Term{Op: OIBitLen, S: SBV(64), Args: []*Term{x}})
+}
+
+// ITz is TrailingZeroBits(|x|) (as BV64), 0 for x == 0.
+func ITz(x *Term) *Term {
+	if x.IsConst() {
+		return BVu(uint64(new(big.Int).Abs(x.C).TrailingZeroBits()), 64)
+	}
+	return intern(&Term{Op: OITz, S: SBV(64), Args: []*Term{x}})
+}
+
+// bitLenCmp rewrites (bitlen(x) op k) / (k op bitlen(x)) for constant k; ok=false if not applicable.
+func lenCmp(op Op, a, b *Term) (*Term, bool) {
+	var x *Term
+	var k *big.Int
+	left := false // bitlen on the left
+	if a.Op == OIBitLen && b.IsConst() {
+		x, k, left = a.Args[0], b.C, true
+	} else if b.Op == OIBitLen && a.IsConst() {
+		x, k = b.Args[0], a.C
+	} else {
+		return nil, false
+	}
+	if !k.IsInt64() || k.Int64() > 4096 {
+		// bitlen is always far below such constants
+		if left {
+			return BoolConst(true), true // bitlen < / <= huge
+		}
+		return BoolConst(false), true
+	}
+	n := int(k.Int64())
+	ax := IAbs(x)
+	lt := func(p int) *Term { // |x| < 2^p
+		if p < 0 {
+			return TFalse
+		}
+		return ILt(ax, IntConst(pow2(p)))
+	}
+	strict := op == OBvULt || op == OBvSLt
+	if left {
+		if strict { // bitlen < n  <=> |x| < 2^(n-1)
+			return lt(n - 1), true
+		}
+		return lt(n), true // bitlen <= n <=> |x| < 2^n
+	}
+	if strict { // n < bitlen <=> |x| >= 2^n
+		return Not(lt(n)), true
+	}
+	return Not(lt(n - 1)), true // n <= bitlen <=> |x| >= 2^(n-1)
+}
+
+func lenEq(a, b *Term) (*Term, bool) {
+	if b.Op == OIBitLen || b.Op == OITz {
+		a, b = b, a
+	}
+	if !b.IsConst() || (a.Op != OIBitLen && a.Op != OITz) {
+		return nil, false
+	}
+	if !b.C.IsInt64() || b.C.Int64() > 4096 {
+		return TFalse, true
+	}
+	n := int(b.C.Int64())
+	x := a.Args[0]
+	ax := IAbs(x)
+	if a.Op == OIBitLen {
+		if n == 0 {
+			return Eq(x, IntI(0)), true
+		}
+		return And(ILe(IntConst(pow2(n-1)), ax), ILt(ax, IntConst(pow2(n)))), true
+	}
+	// trailing zeros == n  <=>  x != 0 and |x| mod 2^(n+1) == 2^n ; tz(0) == 0
+	nz := And(Not(Eq(x, IntI(0))), Eq(IntBin(OIMod, ax, IntConst(pow2(n+1))), IntConst(pow2(n))))
+	if n == 0 {
+		return Or(Eq(x, IntI(0)), nz), true
+	}
+	return nz, true
+}
+
+// expandLen gives the ite-chain definition used when a length term reaches the solver.
+func expandLen(t *Term) *Term {
+	x := t.Args[0]
+	ax := IAbs(x)
+	if t.Op == OIBitLen {
+		res := BVu(bigLenBits, 64)
+		for k := bigLenBits - 1; k >= 0; k-- {
+			res = Ite(ILt(ax, IntConst(pow2(k))), BVu(uint64(k), 64), res)
+		}
+		return res
+	}
+	res := BVu(bigLenBits, 64)
+	for k := bigLenBits - 1; k >= 0; k-- {
+		res = Ite(Not(Eq(IntBin(OIMod, ax, IntConst(pow2(k+1))), IntI(0))), BVu(uint64(k), 64), res)
+	}
+	return Ite(Eq(x, IntI(0)), BVu(0, 64), res)
 }
